@@ -16,7 +16,7 @@ RULE = ("same seeded call histories as C19; at any point of the history, for exp
         "column anywhere; CSV names <prefix>_<i>.csv, one header + T rows; under fs faults the CSV sub-check of that call is "
         "skipped; non-trivial = >=1 conversion checked on >=1 non-empty experiment list; distinct = operation-kind sequence")
 ASSUMPTIONS = ["a conversion may order columns as it likes; it is compared as a set of named/valued columns"]
-BUDGET = {"quick": 45, "thorough": 900}
+BUDGET = {"quick": 300, "thorough": 900}
 RUNS = {"quick": 3000, "thorough": 220000}
 
 
